@@ -21,6 +21,7 @@ type C14LateCase struct {
 	Argv  []string `json:"argv"`
 	Fault string   `json:"fault"`
 	Days  int      `json:"days"`
+	Procs string   `json:"procs,omitempty"`
 }
 
 func init() { Register("C14", "late-failure", checkC14Late) }
@@ -28,7 +29,11 @@ func init() { Register("C14", "late-failure", checkC14Late) }
 func checkC14Late(c C14LateCase) (o Outcome) {
 	dir, cleanup := knutio.Materialise(map[string]string{"j.knut": c.Text})
 	defer cleanup()
-	r := knutio.Run(knutio.Opts{Dir: dir, Prefix: []string{"prlimit", "--as=4294967296"}}, c.Argv...)
+	var env []string
+	if c.Procs != "" {
+		env = []string{"GOMAXPROCS=" + c.Procs}
+	}
+	r := knutio.Run(knutio.Opts{Dir: dir, Env: env, Prefix: []string{"prlimit", "--as=4294967296"}}, c.Argv...)
 	o.Evals = 1
 	o.Labels = []string{"late:" + c.Argv[0], "late-fault:" + c.Fault}
 	o.NonTrivial = c.Days >= 20
@@ -64,7 +69,7 @@ func drawC14Late(t *rapid.T) C14LateCase {
 	j := gen.GenJournal(t, cfg)
 	_, hi, _ := gen.DatesOf(j)
 	v := rapid.SampledFrom(j.Commodities).Draw(t, "valuation")
-	c := C14LateCase{}
+	c := C14LateCase{Procs: rapid.SampledFrom([]string{"", "", "1", "2", "4"}).Draw(t, "procs")}
 	cmd := rapid.SampledFrom([]string{"check-write", "check-write", "balance", "balance-valued", "print", "transcode", "register", "weights"}).Draw(t, "cmd")
 	c.Fault = rapid.SampledFrom([]string{"assertion", "unopened", "double-open", "close-nonzero", "missing-price"}).Draw(t, "fault")
 	valued := cmd == "balance-valued" || cmd == "transcode" || cmd == "weights"
